@@ -86,6 +86,10 @@ def resume_spec(draw, small=False):
     # budgets long enough to have boundaries before the end
     if s["budget_kind"] == "epochs":
         s["budget"] = draw(st.integers(2, 5))
+    for c in s["configs"]:
+        # a side sampler whose length depends on how many passes it has served carries hidden state no checkpoint restores
+        if c.get("form") == "growing":
+            del c["form"]
     s["form"] = draw(st.sampled_from(["start_epoch", "start_epoch", "start_update", "start_sample"]))
     s["kfrac"] = draw(st.sampled_from([0.0, 0.34, 0.5, 0.67, 0.99]))
     return s
